@@ -76,6 +76,7 @@ class C06(PropBase):
         "of a second call, no mutable container shared with v or with any earlier output of the run, v unchanged. Non-trivial: "
         "the same (T, v) was marshalled earlier in the run and its result was deep-mutated since, or a fault fired before, or a "
         "memo written earlier was read; distinct = distinct (operation digest, pre-state signature) pairs."
+        ' Mappings with composite keys (tuple/frozenset key types) may be refused; what is emitted for them is held to the same rule.'
         ' Under the swept exhaustion fault the same object is first offered from every stack depth at which the conversion cannot complete.'
     )
     ASSUMPTIONS = ["Any / unparameterised containers are outside the statement (their contents are passed through by contract)"]
@@ -137,6 +138,19 @@ class C06(PropBase):
                 if names:
                     steps.append({"op": "marshal", "t": lit, "v": {"$enum": [f"{mods[0]}.VwPlainE", rng.choice(names)]}, "mod": rng.choice(mods), "nonmember": True})
                     continue
+            if 0.08 <= r < 0.12:
+                # a mapping whose keys are composite (they marshal into lists, which key nothing): refusing it is an
+                # answer, output with keys that are not primitives is not
+                kt, kv = rng.choice([({"k": "tuple", "a": [{"k": "int"}, {"k": "int"}]}, {"$tuple": [0, 1]}), ({"k": "tuplevar", "a": {"k": "str"}}, {"$tuple": ["a", "b"]}),
+                                     ({"k": "frozenset", "a": {"k": "int"}}, {"$frozenset": [3]})])
+                t = {"k": rng.choice(["dict", "Mapping"]), "a": [kt, {"k": "str"}]}
+                if t["k"] == "Mapping":
+                    t["sp"] = "typing"
+                v = {"$dict": [[kv, "x"]]}
+                if rng.random() < 0.4:
+                    t, v = {"k": "list", "a": t}, {"$list": [v]}
+                steps.append({"op": "marshal", "t": t, "v": v, "mod": rng.choice(mods), "may_refuse": True})
+                continue
             if r < 0.08:
                 lit = gen.gen_literal(rng)
                 bad = rng.choice([9, "zz", {"$f": "2.5"}, None, True, "1", 1, 0, "", False,
@@ -202,6 +216,8 @@ class C06(PropBase):
         if "lit" == step["t"]["k"]:
             return
         v = sess.inputs[sid]
+        if not out.ok and step.get("may_refuse") and isinstance(out.exc, (TypeError, ValueError)):
+            return
         if not out.ok:
             sess.violation("marshal-raised", i, {"t": model.tsrc(step["t"]), "exc": f"{type(out.exc).__name__}: {out.exc}"[:240]},
                            sig=f"raised:{type(out.exc).__name__}:{shape}")
